@@ -20,7 +20,7 @@ OKPARAMS = {
     "logging/setLevel": {"level": "info"},
 }
 HANDLER = {
-    ("tools/call", "h:error"): ("t-err", "boom-"), ("tools/call", "h:isError"): ("t-iserr", ""), ("tools/call", "h:nil"): ("t-nil", ""),
+    ("tools/call", "h:error"): ("t-err", "boom-"), ("tools/call", "h:ctxError"): ("t-ctxerr", "boom-"), ("tools/call", "h:isError"): ("t-iserr", ""), ("tools/call", "h:nil"): ("t-nil", ""),
     ("tools/call", "h:noContent"): ("t-nocontent", ""), ("tools/call", "h:unencodable"): ("t-nan", ""),
     ("prompts/get", "h:error"): ("p-err", "boom-prompt"), ("prompts/get", "h:nil"): ("p-nil", ""),
     ("resources/read", "h:error"): ("r://err", "boom-resource"), ("resources/read", "h:nil"): ("r://nil", ""),
@@ -100,6 +100,8 @@ def body_for(m, pc, idv):
             p[k] = ""
         elif pc == "unknownEntry":
             p[k] = "r://no-such" if k == "uri" else ({"type": "ref/prompt", "name": "no-such-entry"} if k == "ref" else "no-such-entry")
+        elif pc in ("cursorNumber", "cursorNull", "cursorObject", "cursorUnknown"):
+            p["cursor"] = {"cursorNumber": 7, "cursorNull": None, "cursorObject": {"a": 1}, "cursorUnknown": "bm8tc3VjaC1jdXJzb3I="}[pc]
         elif pc == "argsArray":
             p["arguments"] = [1]
         elif pc == "argsString":
